@@ -502,8 +502,8 @@ def do_pairing_case(req):
     from pykdebugparser.trace_handlers.trace import handlers as trace_handlers
     from spec import pairing as S
     codes = _cached_codes()
-    p = TracesParser(codes, {}, {})
     stream = [tuple(x) for x in req['stream']]
+    p = TracesParser(codes, {t: 1 for t, _, _ in stream}, {1: 'proc'})
     # word 0 names one of the stream's threads (thread-terminate and similar records refer to a thread by their first word)
     evs = [_mk_kevent(c, t, q, (11 + ((i + 1) % 2), 2, 3, 4), ts=i) for i, (t, c, q) in enumerate(stream)]
     ids = {id(e): i for i, e in enumerate(evs)}
@@ -1395,7 +1395,8 @@ def do_interleaving_case(req):
         return out
 
     def run(order):
-        p = TracesParser(codes, {}, {})
+        # the dump's thread map already knows the threads (as it does for every thread alive when the capture started)
+        p = TracesParser(codes, {int(t): 1 for t in progs}, {1: 'proc'})
         per = {}
         for e in build(order):
             r = p.feed(e)
